@@ -493,7 +493,9 @@ def tpRenderTABLE(self, id, root_url, url, state, substate, diff, data,
         else:
             __traceback_info__ = sub, args, state, substate
             ids = {}
-            for item in items:
+            # an expanded node may have no branches method at all
+            # (``assume_children`` gives such a node an expand link)
+            for item in items or ():
                 id = extract_id(item, args['id'])
                 if len(sub) == 1:
                     sub.append([])
